@@ -44,9 +44,10 @@ type LoopSpec struct {
 type CallSpec struct { // "at call <callee>#k: requires e" / "hint e"
 	Callee string
 	K      int
-	Req    []*E
-	ReqSrc []string
-	Hints  []*E
+	Req     []*E
+	ReqSrc  []string
+	Hints   []*E
+	Matched bool
 }
 
 type Contract struct {
@@ -74,6 +75,7 @@ type Contract struct {
 	Inline    bool
 	ExitHints []*E
 	DynCallee map[string]*Contract // contracts assumed for calls through function-typed parameters
+	Bind      map[string]string    // (dyn callee) ghost name -> result name it records
 }
 
 type SpecSet struct {
@@ -413,6 +415,15 @@ func (ss *SpecSet) loadSpecFile(path string, prefixed bool, pkgDir string) error
 						}
 						dc.Ensures = append(dc.Ensures, e)
 						dc.EnsSrc = append(dc.EnsSrc, cl[8:])
+					case strings.HasPrefix(cl, "bind "):
+						kv := strings.SplitN(cl[5:], "=", 2)
+						if len(kv) != 2 {
+							return fail(i, "bind ghost = result")
+						}
+						if dc.Bind == nil {
+							dc.Bind = map[string]string{}
+						}
+						dc.Bind[strings.TrimSpace(kv[0])] = strings.TrimSpace(kv[1])
 					case cl == "":
 					default:
 						return fail(i, "unknown callee clause %q", cl)
